@@ -76,6 +76,29 @@ PLANS["C10"] = {
                     "no data-value oracle under faults (a stale reply after a transient fault is outside the statement)"],
 }
 
+GEN_RULE = ("scenario = chassis layout (bare device / CompactLogix / ControlLogix with bridge and modules) + identities + scripted "
+            "generic objects + call list; generic_message calls draw service, class/instance/attribute (int or 1/2/4-byte bytes, "
+            "values around 0xFF/0x100 and 0xFFFF/0x10000), request data length (odd/even, 0..3900), transport (connected / UCMM / "
+            "Unconnected Send), route_path form (True/False/str/segment list/bytes), reply status, extended status and data; "
+            "helpers get_plc_name/info, get_module_info(slot), get/set_plc_time under the virtual clock; list_identity and discover "
+            "over simulated UDP with drop/duplicate/reorder. distinct = distinct (call kind, transport, outcome, route form, data "
+            "type) sequences")
+PLANS["C14"] = {"level": "exploration", "parts": [("generic", "gen", 3000, 60000)], "budget_s": {"quick": 90, "thorough": 900},
+                "rule": GEN_RULE, "real": LOGIX_REAL, "stub": LOGIX_STUB,
+                "assumptions": ["a direct UCMM generic message carries the route after the request data by documented design "
+                                "(DESIGN 3.4 rule 2): objects accept trailing bytes and the oracle expects request_data + route",
+                                "unconnected_send=True with route_path=False and bytes ids of length other than 1/2/4 are not generated "
+                                "(DESIGN 6 C14)"]}
+PLANS["C16"] = {"level": "exploration", "parts": [("generic", "gen", 3000, 60000)], "budget_s": {"quick": 90, "thorough": 900},
+                "rule": GEN_RULE, "real": LOGIX_REAL, "stub": LOGIX_STUB,
+                "assumptions": ["vendor / product-type NAMES come from the library's own tables (naming dictionary only); ids, "
+                                "widths, order and formatting are the reference's",
+                                "for-all-values is seeded sampling with boundary bias, not enumeration"]}
+PLANS["C09"]["parts"].append(("generic", "gen", 1500, 30000))
+PLANS["C11"]["parts"].append(("generic", "gen", 1000, 20000))
+PLANS["C11"]["parts"].append(("lifecycle", "gen", 1000, 20000))
+PLANS["C17"]["parts"].append(("lifecycle", "gen", 1000, 20000))
+
 
 def plan_for(prop, tier):
     p = PLANS.get(prop)
